@@ -12,8 +12,9 @@ Sources (SPECS):
   lib_guesser/grammar_io.py          _load_config, _load_from_multiple_files, _load_terminals, load_grammar
 The functions harness/translate_loader.py already translates (_load_from_file of both
 grammar_io modules, _load_base_structures) are CALLED through the fields of the `world`
-parameter (Loader2Rt.call_load_from_file ...); coq/theories/Loader2GenProofs.v instantiates
-them with the definitions of gen/Loader_gen.v.
+parameter (Loader2Rt.call_load_from_file ...): the generated files do not depend on
+gen/Loader_gen.v; coq/theories/Loader2GrammarFacts.v instantiates the field with the
+definition of gen/Loader_gen.v where a theorem needs what that reader guarantees.
 
 The source is only parsed (`ast`), never imported or executed.  The output targets the runtime
 coq/theories/Loader2Rt.v (DYNAMICALLY typed Python values `pyval`: the dicts these functions
@@ -32,7 +33,8 @@ Accepted subset (anything else raises TranslateError with file:line):
   statements  x = e;  x op= e (+ - *);  P[k] = e, P.a = e, P[k] op= e, P.a op= e, P.append(e) for a
               path P = a variable followed by subscripts / attributes (read on the way down,
               written back on the way up, in Python's evaluation order);  if / elif / else;
-              for x in <file> / range(a, b) / <expression>, with break / continue (no else);
+              for x in <file> / range(a, b) / <expression>, with break / continue (no else; no
+              `while`);
               try / except C [as n] (no else / finally), nested; bare `raise` in a handler,
               `raise Exception`;  with open(n, 'r'[, encoding=e]) as f / with codecs.open(n, 'r',
               encoding=e[, errors=<constant>]) as f;  return [e];  pass;  docstrings;
@@ -65,8 +67,8 @@ What the translation does NOT model / trusts:
     modelled).  Two out arguments of one call must have different roots.
   * when a callee raises, what it did to its out arguments before raising is dropped (the
     handler of the caller sees the value from before the call).  A handler of a `try` whose
-    body calls a function with out arguments must therefore leave the function (return / raise):
-    nothing is claimed about the content of the objects after a failed load.
+    body calls a function of SPECS with out arguments must therefore leave the function
+    (return / raise): nothing is claimed about the content of the objects after a failed load.
   * everything printed (print to stderr AND stdout, traceback.print_exc): dropped, including the
     evaluation of the arguments (a name they mention must be a parameter / local of the
     function, nothing more is checked).
